@@ -212,16 +212,32 @@ func (r *runner) reset() error {
 func (r *runner) attach() error {
 	r.clk = clock.NewTestClock(t0.Add(time.Duration(r.now) * time.Second))
 	r.w.TxStore.VerifSetClock(r.clk)
+	fin0 := atomic.LoadInt64(&theLogger.finished)
 	r.w.SynchronizeRPC(r.fc)
 	r.fc.notify(chain.ClientConnected{})
-	deadline := time.Now().Add(10 * time.Second)
+	limit := 60 * time.Second // generous: never reached on the unchanged tree
+	if atomic.LoadInt32(&quietTimeouts) >= 3 {
+		limit = 10 * time.Second
+	}
+	deadline := time.Now().Add(limit)
 	for !r.w.ChainSynced() || r.fc.rescanCount() == 0 || !r.fc.allDelivered() {
 		if time.Now().After(deadline) {
+			atomic.AddInt32(&quietTimeouts, 1)
 			return errors.New("initial sync timeout")
 		}
 		time.Sleep(200 * time.Microsecond)
 	}
 	r.fc.notify()
+	// The start-up rescan ends like every rescan: rescanProgressHandler logs "Finished rescan" and starts
+	// resendUnminedTxs.  Wait until that goroutine has come and gone — otherwise a late one (starved machine) reads the
+	// store only after a LATER op has recorded a transaction and offers it to the backend in the middle of that op.
+	for atomic.LoadInt64(&theLogger.finished) == fin0 {
+		if time.Now().After(deadline) {
+			break
+		}
+		time.Sleep(200 * time.Microsecond)
+	}
+	rebroadcastsOver()
 	r.wLocked, r.lockTimer = false, nil
 	return r.w.Unlock(privPass, nil)
 }
